@@ -667,6 +667,9 @@ func (w *World) execBlock(b *Block) {
 	if b.Export {
 		w.exportImportCheck()
 	}
+	if b.Reimport {
+		w.restartFromExport()
+	}
 }
 
 // runSchedule executes a schedule; with gen != nil blocks are generated online
@@ -711,4 +714,53 @@ func runSchedule(s *Schedule, gen Generator, orc Oracle, rng *Rng) *RunResult {
 	}
 	res.FaultFree = ff
 	return res
+}
+
+// restartFromExport is the fault "the network is restarted from an exported genesis": the
+// primary node's state is exported after Commit, a fresh node is initialised from it with
+// InitialHeight = next height, and the run continues on that node. Only used by workloads whose
+// property does not depend on record kinds the export is known to drop.
+func (w *World) restartFromExport() {
+	if len(w.nodes) != 1 || w.inBlock {
+		return
+	}
+	src := w.node()
+	var state []byte
+	var height int64
+	ok := w.safely("Export", func() {
+		ex, err := src.app.ExportAppStateAndValidators(false, nil)
+		if err == nil {
+			state, height = ex.AppState, ex.Height
+		}
+	})
+	if !ok || state == nil {
+		w.aborted, w.stop = false, false
+		return
+	}
+	n := newNode("X"+src.name, dbm.NewMemDB(), "", w.cfg.InvCheckPeriod)
+	req := abci.RequestInitChain{Time: w.now, ChainId: chainID, ConsensusParams: consensusParams(w.cfg), Validators: []abci.ValidatorUpdate{},
+		AppStateBytes: state, InitialHeight: height}
+	good := true
+	func() {
+		defer func() {
+			if r := recover(); r != nil {
+				good = false
+			}
+		}()
+		n.app.InitChain(req)
+	}()
+	if !good {
+		_ = os.RemoveAll(n.home)
+		w.Probe("reimport_failed")
+		return
+	}
+	_ = os.RemoveAll(src.home)
+	w.nodes[0] = n
+	w.initReq = req
+	w.committed = false
+	w.live = true
+	w.lastAppHash = nil
+	w.hdr = tmproto.Header{ChainID: chainID, Height: w.height + 1, Time: w.now}
+	w.touch()
+	w.Fault("restart_from_export")
 }
